@@ -255,7 +255,7 @@ func TestC11(t *testing.T) {
 
 // ---------------------------------------------------------------- C12
 
-var c12Kinds = []string{"add", "add", "add", "add", "add", "merge", "decmerge", "deczeros", "copy", "clear", "encdec"}
+var c12Kinds = []string{"add", "add", "add", "add", "add", "merge", "decmerge", "deczeros", "copy", "clear", "encdec", "vanish"}
 
 func drawShape(t *rapid.T) (string, signProfile) {
 	shape := rapid.SampledFrom([]string{"all-positive", "all-negative", "all-zero", "zero+negative", "zero+positive", "single-value", "sub-minimum", "mixed", "mixed"}).Draw(t, "shape")
@@ -452,4 +452,86 @@ func checkCoherence(t *rapid.T, u *skUT, cl *caseLog) string {
 		}
 	}
 	return ""
+}
+
+// TestC11_HugeTotal: total weights of 2^53 and far above, reached by reweighting up (count-1 is then rounded to
+// count and ranks are only known to within an ulp of the total, so the "one unit of weight" clause cannot be judged);
+// what remains decidable is the last clause of C11: every answer is within alpha of some absorbed value, lies between
+// the reported minimum and maximum, and never comes from an empty side - in particular at q = 1 and its neighbours.
+func TestC11_HugeTotal(t *testing.T) {
+	rapid.Check(t, func(t *rapid.T) {
+		cl := newCase("C11")
+		cl.label("mode:huge-total")
+		c := drawCfg(t, cfgOpt{alphaLo: 1e-4, alphaHi: 0.5})
+		d := drawDomain(t, c.m, windowFor(c))
+		prof := drawProfile(t)
+		if rapid.Bool().Draw(t, "onesided") {
+			prof = rapid.SampledFrom([]signProfile{{pos: true}, {neg: true}, {zero: true}, {neg: true, zero: true}, {pos: true, zero: true}}).Draw(t, "prof1")
+		}
+		s := c.new()
+		cl.logf("C11 huge total %s", c)
+		cl.label("pos:" + c.pos.Name)
+		n := rapid.IntRange(1, 12).Draw(t, "n")
+		var vals []float64
+		total := 0.0
+		for i := 0; i < n; i++ {
+			v, _, _ := d.value(t, prof)
+			w := math.Ldexp(float64(rapid.IntRange(1, 1024).Draw(t, "wm")), rapid.IntRange(-10, 10).Draw(t, "we"))
+			if err := s.AddWithCount(v, w); err != nil {
+				t.Fatalf("C11 huge: AddWithCount(%v,%v): %v", v, w, err)
+			}
+			cl.logf("AddWithCount(%v,%v)", v, w)
+			vals = append(vals, effective(c.m, v))
+			total += w
+		}
+		// scale the total to 2^e, e in [52, 90] (around and far above 2^53), in one or two steps
+		e := rapid.IntRange(52, 90).Draw(t, "exp")
+		k := e - int(math.Floor(math.Log2(total)))
+		for k > 0 {
+			step := min(k, 40)
+			f := math.Ldexp(1, step)
+			if err := s.Reweight(f); err != nil {
+				t.Fatalf("C11 huge: Reweight(%v): %v", f, err)
+			}
+			cl.logf("Reweight(2^%d)", step)
+			k -= step
+		}
+		W := s.GetCount()
+		cl.labelIf(W >= 0x1p53, "W>=2^53")
+		mn, e1 := s.GetMinValue()
+		mx, e2 := s.GetMaxValue()
+		if e1 != nil || e2 != nil {
+			t.Fatalf("C11 huge %s: min/max of a non-empty sketch: %v %v", c, e1, e2)
+		}
+		alpha := alphaOf(c)
+		hasPos, hasNeg := false, false
+		for _, v := range vals {
+			hasPos = hasPos || v > 0
+			hasNeg = hasNeg || v < 0
+		}
+		cl.labelIf(!(hasPos && hasNeg), "one-sided")
+		for _, q := range []float64{1, math.Nextafter(1, 0), 1 - 0x1p-40, 0.999, 0.75, 0.5, 0.25, 1e-3, 0x1p-60, 0} {
+			y, err := s.GetValueAtQuantile(q)
+			if err != nil || math.IsNaN(y) {
+				t.Fatalf("C11 huge %s (W=%v): quantile %v: %v, %v", c, W, q, y, err)
+			}
+			if y < mn || y > mx {
+				t.Fatalf("C11 huge %s (W=%v): quantile %v answered %v, outside the reported [min,max] = [%v,%v]", c, W, q, y, mn, mx)
+			}
+			if (y > 0 && !hasPos) || (y < 0 && !hasNeg) {
+				t.Fatalf("C11 huge %s (W=%v): quantile %v answered %v, a value from an empty side (absorbed: %v)", c, W, q, y, vals)
+			}
+			ok := false
+			for _, v := range vals {
+				if withinAlpha(c.m, alpha, y, v) {
+					ok = true
+					break
+				}
+			}
+			if !ok {
+				t.Fatalf("C11 huge %s (W=%v): quantile %v answered %v, which is not within alpha of any absorbed value %v", c, W, q, y, vals)
+			}
+		}
+		cl.done(W >= 0x1p53)
+	})
 }
